@@ -27,4 +27,7 @@ def main(tier, only=None):
 if __name__ == '__main__':
     import argparse
     ap = argparse.ArgumentParser(); ap.add_argument('--tier', default=os.environ.get('VERIF_TIER', 'quick')); ap.add_argument('--only')
-    a = ap.parse_args(); sys.exit(main(a.tier, a.only))
+    a = ap.parse_args()
+    if getattr(a, 'only', None) or getattr(a, 'caps', None):
+        os.environ['VERIF_PARTIAL'] = '1'
+    sys.exit(main(a.tier, a.only))
